@@ -2,7 +2,7 @@
    [run opcode argument].  Extracted to OCaml (bin/dlms_model) and also evaluated in the
    kernel by generated cases files.  Opcode names are parsed from the comments below by
    harness/lib.py — keep the format  "| <n> (* <name> *) =>". *)
-From Dlms Require Import Base CrcModel CrcSpec FieldsModel FieldsSpec.
+From Dlms Require Import Base CrcModel CrcSpec FieldsModel FieldsSpec AddrModel AddrSpec.
 
 Definition v_bools (l : list bool) : V := VList (map VBool l).
 Definition as_bools (v : V) : list bool := map as_b (as_list v).
@@ -14,6 +14,12 @@ Definition v_ictrl (x : ictrl) : V := let '(s, r, f) := x in VList [VN s; VN r; 
 Definition v_fmt (x : fmt) : V := let '(l, s) := x in VList [VN l; VBool s].
 Definition v_ns (l : list N) : V := VList (map VN l).
 Definition as_ns (v : V) : list N := map as_n (as_list v).
+
+Definition v_optn (o : option N) : V := v_opt VN o.
+Definition as_optz (v : V) : option Z := match v with VInt z => Some z | _ => None end.
+Definition as_optn (v : V) : option N := match v with VInt z => Some (Z.to_N z) | _ => None end.
+Definition v_addr (x : addr) : V := let '(l, p, s) := x in VList [VN l; v_optn p; VBool s].
+Definition v_found (x : N * option N * nat) : V := let '(l, p, k) := x in VList [VN l; v_optn p; v_nat k].
 
 Definition run (op : N) (a : V) : V :=
   match op with
@@ -63,5 +69,14 @@ Definition run (op : N) (a : V) : V :=
           if k =? 2 then std_ctrl_SNRM p else if k =? 3 then std_ctrl_UA p else
           if k =? 4 then std_ctrl_DISC p else std_ctrl_UI p)
   | 46 (* spec_format *) => VBytes (std_format (as_n (arg 0 a)) (as_b (arg 1 a)))
+  (* ---- HDLC addresses (C13) ---- *)
+  | 50 (* addr_make_to_bytes *) =>
+      v_res VBytes (do x <- addr_make (as_z (arg 0 a)) (as_optz (arg 1 a)) (as_b (arg 2 a)); Ok (addr_to_bytes x))
+  | 51 (* find_addresses *) =>
+      v_res (fun ds => VList [v_found (fst ds); v_found (snd ds)]) (find_addresses (as_bytes a))
+  | 52 (* destination_from_bytes *) => v_res v_addr (destination_from_bytes (as_bytes (arg 0 a)) (as_b (arg 1 a)))
+  | 53 (* source_from_bytes *) => v_res v_addr (source_from_bytes (as_bytes (arg 0 a)) (as_b (arg 1 a)))
+  | 54 (* spec_addr *) =>
+      VBytes (if as_b (arg 2 a) then std_server (as_n (arg 0 a)) (as_optn (arg 1 a)) else std_client (as_n (arg 0 a)))
   | _ => bad_args
   end.
